@@ -151,9 +151,12 @@ def build(inst):
                 b.objs[n][key] = c
             b.names[n] = [str(key) for key in keys]
         elif k in ('obj', 'proxy', 'sobj'):
-            for i, c in enumerate(ch):
-                setattr(b.objs[n], 'a%d' % i, c)
-            b.names[n] = ['a%d' % i for i in range(len(ch))]
+            # every other attribute has a name that merely BEGINS like a mangled one (_VObj...): it is shown under its own
+            # name - only a name the compiler mangled (_VObj__x) is shown as written in the class (__x)
+            attrs = [('a%d' % i) if i % 2 == 0 else ('_VObjective%d' % i) for i in range(len(ch))]
+            for name, c in zip(attrs, ch):
+                setattr(b.objs[n], name, c)
+            b.names[n] = attrs
         elif k == 'exc':
             b.objs[n].args = tuple(ch)
             b.names[n] = [str(i) for i in range(len(ch))]
